@@ -239,11 +239,18 @@ fn pool_obs(s: &Snap) -> Vec<String> {
 fn sdiff(a: u128, bb: u128) -> String { if a >= bb { (a - bb).to_string() } else { format!("-{}", bb - a) } }
 fn reserves(s: &Snap) -> [u128; 2] { [s.bal[0].saturating_sub(s.fee[0]), s.bal[1].saturating_sub(s.fee[1])] }
 
+/// who receives the proceeds of a swap: for offers with x % 5 == 2 another user than the sender (`to` argument), else the sender.
+/// The model's swap does not depend on the receiver; the user effect observed is the sum over sender and receiver.
+fn receiver(op: &Op) -> Option<usize> {
+    match op { Op::Swap { u, x, .. } => Some(if *x % 5 == 2 { (*u + 1) % 4 } else { *u }), _ => None }
+}
+
 fn exec(w: &mut PairWorld, op: &Op) -> Result<(), String> {
     match op {
         Op::Provide { u, d } => guarded(|| w.provide_ext(USERS4[*u], d[0], d[1], None, None, (d[0] ^ d[1]) & 1 == 1, None)).map(|_| ()),
         Op::Withdraw { u, amount } => guarded(|| w.withdraw(USERS4[*u], *amount)).map(|_| ()),
-        Op::Swap { u, i, x, ms } => guarded(|| w.swap(USERS4[*u], *i, *x, None, ms.map(|m| Decimal::new(m.into())), None)).map(|_| ()),
+        Op::Swap { u, i, x, ms } => { let rc = receiver(op).unwrap();
+            guarded(|| w.swap(USERS4[*u], *i, *x, None, ms.map(|m| Decimal::new(m.into())), if rc != *u { Some(USERS4[rc].to_string()) } else { None })).map(|_| ()) }
         Op::Collect => guarded(|| w.collect("bob")).map(|_| ()),
         Op::Donate { i, x } => guarded(|| w.donate("donor", *i, *x)).map(|_| ()),
     }
@@ -284,6 +291,7 @@ fn monitors(out: &mut Out, h: &History, op: &Op, ok: bool, before: &Snap, after:
             let dpd = if *i == 0 { h.dp } else { (h.dp.1, h.dp.0) };
             let s = impl_swap(r0[*i], r0[j], *x, h.fees, h.amp, dpd);
             if let Outcome::Ok(sv) = &s {
+                let u = &receiver(op).unwrap_or(*u);
                 let got = after.user[*u][j] - before.user[*u][j];
                 if got != sv.ret || after.fee[j] - before.fee[j] != sv.pf || after.burn[j] - before.burn[j] != sv.bf {
                     out.monitor_fail("C03", "swap paid / booked something else than compute_swap on the reported reserves", rp.clone());
@@ -343,7 +351,8 @@ pub fn run_history(out: &mut Out, rng: &mut Rng, h: &History) {
         let after = snap(&w);
         out.count(&format!("pool:{}:{}", op.kind(), match &r { Ok(_) => "ok", Err(e) => if fail_class(e).is_none() { "panic" } else { "rejected" } }));
         monitors(out, h, &op, r.is_ok(), &before, &after, &rp);
-        if let (Some(q), Ok(_), Op::Swap { u, i, .. }) = (&quote, &r, &op) {
+        if let (Some(q), Ok(_), Op::Swap { i, .. }) = (&quote, &r, &op) {
+            let u = &receiver(&op).unwrap();
             out.monitor_evals += 1;
             let j = 1 - *i;
             let got = after.user[*u][j] - before.user[*u][j];
@@ -384,7 +393,10 @@ pub fn run_history(out: &mut Out, rng: &mut Rng, h: &History) {
                 seen.insert(op.kind());
                 obsv.push("0".into());
                 let uu = match &op { Op::Provide { u, .. } | Op::Withdraw { u, .. } | Op::Swap { u, .. } => Some(*u), _ => None };
-                for i in 0..2 { obsv.push(match uu { Some(u) => sdiff(after.user[u][i], before.user[u][i]), None => "0".into() }); }
+                let rc = receiver(&op).filter(|rc| Some(*rc) != uu);
+                for i in 0..2 { obsv.push(match uu { Some(u) => match rc {
+                    Some(rc) => sdiff(after.user[u][i].saturating_add(after.user[rc][i]), before.user[u][i].saturating_add(before.user[rc][i])),
+                    None => sdiff(after.user[u][i], before.user[u][i]) }, None => "0".into() }); }
                 for i in 0..2 { obsv.push(sdiff(after.coll[i], before.coll[i])); }
             }
             Err(e) => match fail_class(e) { Some(c) => { obsv.push("1".into()); obsv.push(c.to_string()); } None => obsv.push("2".into()) },
